@@ -86,6 +86,12 @@ type Clause struct {
 	Case  string // optional: clause only under this named case
 }
 
+type LoopLet struct {
+	Loop int
+	Name string
+	Expr SExpr
+}
+
 type LemmaStep struct {
 	Kind    string // call | assert | assume(not allowed) | use
 	Results []string
@@ -123,6 +129,9 @@ type Contract struct {
 	Induct   string   // induction variable for lemmas
 	Bounded  string   // non-empty: this is a bounded stand-in description
 	Patterns [][]SExpr // instantiation patterns when the lemma is used as an axiom
+	Irrelevant []string // captured variables of closures whose assignments are ghost-irrelevant (logging only)
+	Mutates  []string   // slice parameters modified in place; post(p) is their final value
+	LoopLets []LoopLet
 }
 
 func (c *Contract) Key() string {
@@ -611,7 +620,7 @@ var clauseKeywords = map[string]bool{
 	"decreases": true, "trusted": true, "pure": true, "pred": true, "fn": true,
 	"lemma": true, "axiom": true, "call": true, "assert": true, "abstracts": true,
 	"props": true, "uses": true, "noinline": true, "ghost": true, "induct": true,
-	"package": true, "recfn": true, "opred": true, "bounded": true, "use": true, "pattern": true,
+	"package": true, "recfn": true, "opred": true, "bounded": true, "use": true, "pattern": true, "irrelevant": true, "mutates": true,
 }
 
 func firstWord(s string) string {
@@ -718,6 +727,20 @@ func parseSpecFile(path, pkgPath string) (*SpecFile, error) {
 				}
 				fmt.Sscanf(parts[0], "%d", &n)
 				kind = parts[1]
+				if kind == "let" {
+					// loop N let name := expr
+					body := strings.TrimSpace(strings.TrimPrefix(strings.TrimSpace(strings.TrimPrefix(rest, parts[0])), "let"))
+					k := strings.Index(body, ":=")
+					if k < 0 {
+						return nil, fail(i, "loop let needs :=")
+					}
+					e, err := parseSpecExpr(body[k+2:])
+					if err != nil {
+						return nil, fail(i, "%v", err)
+					}
+					cur.LoopLets = append(cur.LoopLets, LoopLet{n, strings.TrimSpace(body[:k]), e})
+					break
+				}
 				ex := strings.TrimSpace(strings.TrimPrefix(strings.TrimSpace(strings.TrimPrefix(rest, parts[0])), kind))
 				lab := ""
 				if kind == "invariant" {
@@ -767,6 +790,10 @@ func parseSpecFile(path, pkgPath string) (*SpecFile, error) {
 				cur.Props = append(cur.Props, strings.Fields(strings.ReplaceAll(rest, ",", " "))...)
 			case "uses", "use":
 				cur.Uses = append(cur.Uses, strings.Fields(strings.ReplaceAll(rest, ",", " "))...)
+			case "irrelevant":
+				cur.Irrelevant = append(cur.Irrelevant, strings.Fields(strings.ReplaceAll(rest, ",", " "))...)
+			case "mutates":
+				cur.Mutates = append(cur.Mutates, strings.Fields(strings.ReplaceAll(rest, ",", " "))...)
 			case "induct":
 				cur.Induct = rest
 			case "pattern":
